@@ -1442,7 +1442,9 @@ class ManifestRecursiveLoader:
             if fe.tag == 'IGNORE':
                 continue
             if (fe.tag == 'MANIFEST' and relpath in self.loaded_manifests
-                    and relpath in self.updated_manifests):
+                    and relpath in self.updated_manifests
+                    and not os.path.lexists(
+                        os.path.join(self.root_directory, relpath))):
                 # not a removed file but a Manifest created by
                 # a previous update on this loader and not saved yet
                 continue
